@@ -24,7 +24,19 @@
        (one packet "held");
      * the first completed key exchange is reported to the application as a NEWKEYS packet
        (waitSession), later ones are hidden;
-     * the server sends EXT_INFO after its first NEWKEYS when the client asked for it. *)
+     * the server sends EXT_INFO after its first NEWKEYS when the client asked for it;
+     * the byte stream between the peers has a finite capacity per direction (NetCap packets:
+       socket buffers): every transport-level write (a writer's pushPacket, kexLoop's KEXINIT /
+       key exchange messages / NEWKEYS / EXT_INFO, each packet of the post-kex flush) is
+       enabled only while the pipe has room, i.e. it blocks in conn.Write otherwise.  A writer
+       blocked there holds mu with sentInitMsg = nil, which excludes only sendKexInit (which
+       would block on the same pipe), so WPush stays one atomic step;
+     * at completion kexLoop, holding mu, first releases its own readLoop
+       (request.done <- t.writeError: KLRelease, a step of its own) and only then flushes the
+       pending queue one packet per step (KLFlush1), still holding mu.  ReleaseAfterFlush = TRUE
+       is the documentation variant with the release moved behind the flush: with both queues
+       longer than the pipe both flushes block while neither side reads (SSHRekey_DocRAF.cfg
+       must produce that counterexample). *)
 EXTENDS Integers, Sequences, FiniteSets, TLC
 
 CONSTANTS MaxPending,   \* maxPendingPackets (64)
@@ -34,7 +46,9 @@ CONSTANTS MaxPending,   \* maxPendingPackets (64)
           MaxRekeys,    \* explicit requestKeyExchange calls allowed (bounds the model)
           Threshold,    \* RekeyThreshold in bytes (write and read)
           PktLens,      \* set of application packet lengths writers may choose
-          ExtInfo       \* BOOLEAN: server sends EXT_INFO after first NEWKEYS
+          ExtInfo,      \* BOOLEAN: server sends EXT_INFO after first NEWKEYS
+          NetCap,       \* packets one direction of the byte stream buffers (conn.Write blocks beyond)
+          ReleaseAfterFlush  \* BOOLEAN: FALSE = the code (reader released before the flush)
 
 Sides == {"c", "s"}
 Other(x) == IF x = "c" THEN "s" ELSE "c"
@@ -49,7 +63,7 @@ Ctl(t, x) == Pkt(t, x, 0, 0, 1)
 NoW == 0   \* writer id of control packets
 
 KxStates == {"idle", "tok", "init", "sentOnly", "ready", "cWait", "cGot", "sGot", "sReplied",
-             "sExt", "waitNK", "gotNK", "flushing"}
+             "sExt", "waitNK", "gotNK", "release", "flushing"}
 
 TypeOK ==
   /\ sentInit \in [Sides -> BOOLEAN] /\ reqKex \in [Sides -> BOOLEAN]
@@ -79,7 +93,8 @@ Init ==
   /\ lastDel = [x \in Sides |-> [w \in Writers |-> 0]]
   /\ nDel = [x \in Sides |-> 0]
 
-MuFree(x) == kx[x] # "flushing"     \* kexLoop holds mu from completion until the flush is over
+MuFree(x) == kx[x] \notin {"release", "flushing"}   \* kexLoop holds mu from completion until the flush is over
+Room(x) == Len(wire[x]) < NetCap    \* conn.Write of side x does not block
 
 -----------------------------------------------------------------------------
 (* writers: handshakeTransport.writePacket *)
@@ -93,6 +108,7 @@ WCall(x, w, n) ==
 \* threshold accounting + pushPacket (under mu)
 Push(x, w) ==
   LET p == Pkt("APP", x, w, sent[x][w] + 1, wlen[x][w]) IN
+  /\ Room(x)
   /\ wire' = [wire EXCEPT ![x] = Append(@, p)]
   /\ sent' = [sent EXCEPT ![x][w] = @ + 1]
   /\ IF wleft[x] > 0 THEN wleft' = [wleft EXCEPT ![x] = @ - p.n] /\ UNCHANGED reqKex
@@ -144,14 +160,14 @@ KLTakeReq(x) ==
   /\ UNCHANGED <<sentInit, reqKex, wire, wleft>> /\ UNCHANGED KLUnch
 
 KLSendInit(x) ==    \* sendKexInit, under mu
-  /\ kx[x] \in {"tok", "init"}
+  /\ kx[x] \in {"tok", "init"} /\ Room(x)
   /\ wire' = [wire EXCEPT ![x] = Append(@, Ctl("KEXINIT", x))]
   /\ sentInit' = [sentInit EXCEPT ![x] = TRUE]
   /\ kx' = [kx EXCEPT ![x] = IF @ = "tok" THEN "sentOnly" ELSE "ready"]
   /\ UNCHANGED <<reqKex, hand, wleft>> /\ UNCHANGED KLUnch
 
 KLSend(x, from, t, to) ==
-  /\ kx[x] = from
+  /\ kx[x] = from /\ Room(x)
   /\ wire' = [wire EXCEPT ![x] = Append(@, Ctl(t, x))]
   /\ kx' = [kx EXCEPT ![x] = to]
   /\ UNCHANGED <<sentInit, reqKex, hand, wleft>> /\ UNCHANGED KLUnch
@@ -172,24 +188,29 @@ KLSendNK(x) == \/ (x = "c" /\ KLSend("c", "cGot", "NEWKEYS", "waitNK"))
 KLSendExt  == KLSend("s", "sExt", "EXT", "waitNK")
 KLRecvNK(x) == KLRecv(x, "waitNK", "NEWKEYS", "gotNK")
 
-KLFinish(x) ==      \* takes mu: clear sentInitMsg, reset thresholds, drain requestKex, release readLoop
+KLFinish(x) ==      \* takes mu: clear sentInitMsg, reset thresholds, drain requestKex
   /\ kx[x] = "gotNK"
   /\ sentInit' = [sentInit EXCEPT ![x] = FALSE]
   /\ wleft' = [wleft EXCEPT ![x] = Threshold]
   /\ reqKex' = [reqKex EXCEPT ![x] = FALSE]
-  /\ hand' = [hand EXCEPT ![x] = "released"]
-  /\ kx' = [kx EXCEPT ![x] = "flushing"]
-  /\ UNCHANGED wire /\ UNCHANGED KLUnch
+  /\ kx' = [kx EXCEPT ![x] = IF ReleaseAfterFlush THEN "flushing" ELSE "release"]
+  /\ UNCHANGED <<hand, wire>> /\ UNCHANGED KLUnch
 
-KLFlush1(x) ==      \* still under mu: push queued packets, no threshold accounting
-  /\ kx[x] = "flushing" /\ pending[x] # <<>>
+KLRelease(x) ==     \* still under mu: request.done <- t.writeError (buffered: never blocks) releases readLoop
+  /\ kx[x] = "release"
+  /\ hand' = [hand EXCEPT ![x] = "released"]
+  /\ kx' = [kx EXCEPT ![x] = IF ReleaseAfterFlush THEN "idle" ELSE "flushing"]
+  /\ UNCHANGED <<sentInit, reqKex, wire, wleft>> /\ UNCHANGED KLUnch
+
+KLFlush1(x) ==      \* still under mu: push queued packets (blocking in conn.Write), no threshold accounting
+  /\ kx[x] = "flushing" /\ pending[x] # <<>> /\ Room(x)
   /\ wire' = [wire EXCEPT ![x] = Append(@, Head(pending[x]))]
   /\ pending' = [pending EXCEPT ![x] = Tail(@)]
   /\ UNCHANGED <<sentInit, reqKex, kx, hand, held, incoming, wleft, rleft, first, session, wpc, wlen, sent, rekeys, lastDel, nDel>>
 
 KLFlushDone(x) ==   \* Broadcast, unlock
   /\ kx[x] = "flushing" /\ pending[x] = <<>>
-  /\ kx' = [kx EXCEPT ![x] = "idle"]
+  /\ kx' = [kx EXCEPT ![x] = IF ReleaseAfterFlush THEN "release" ELSE "idle"]
   /\ UNCHANGED <<sentInit, pending, reqKex, hand, held, incoming, wire, wleft, rleft, first, session, wpc, wlen, sent, rekeys, lastDel, nDel>>
 
 -----------------------------------------------------------------------------
@@ -232,13 +253,15 @@ AppRead(x) ==       \* readPacket by the application (waitSession consumes the f
 
 -----------------------------------------------------------------------------
 KexStep(x) == \/ KLTakeTok(x) \/ KLTakeReq(x) \/ KLSendInit(x) \/ KLSendNK(x) \/ KLRecvNK(x)
-              \/ KLFinish(x) \/ KLFlush1(x) \/ KLFlushDone(x)
+              \/ KLFinish(x) \/ KLRelease(x) \/ KLFlush1(x) \/ KLFlushDone(x)
 KexStepG == KLClientInit \/ KLClientReply \/ KLServerInit \/ KLServerReply \/ KLSendExt
 WriterStep(x, w) == (\E n \in PktLens : WCall(x, w, n)) \/ WQueue(x, w) \/ WBlock(x, w) \/ WPush(x, w) \/ WRet(x, w)
 
-Next == \/ \E x \in Sides : KexStep(x) \/ RLRead(x) \/ RLDeliver(x) \/ RLResume(x) \/ AppRead(x) \/ RequestKex(x)
-        \/ KexStepG
-        \/ \E x \in Sides, w \in Writers : WriterStep(x, w)
+\* every step except the environment's choice to ask for a re-key: exactly the steps Fairness covers
+FairNext == \/ \E x \in Sides : KexStep(x) \/ RLRead(x) \/ RLDeliver(x) \/ RLResume(x) \/ AppRead(x)
+            \/ KexStepG
+            \/ \E x \in Sides, w \in Writers : WriterStep(x, w)
+Next == FairNext \/ \E x \in Sides : RequestKex(x)
 
 Fairness ==
   /\ \A x \in Sides : /\ WF_vars(KexStep(x)) /\ WF_vars(RLRead(x)) /\ WF_vars(RLDeliver(x))
@@ -285,7 +308,10 @@ K2State == \A x \in Sides : \A w \in Writers :
 K3 == \A x \in Sides : Len(pending[x]) <= MaxPending
 
 \* a queued packet exists only while a key exchange is in progress (or is being flushed)
-QueueOnlyInKex == \A x \in Sides : pending[x] # <<>> => (sentInit[x] \/ kx[x] = "flushing")
+QueueOnlyInKex == \A x \in Sides : pending[x] # <<>> => (sentInit[x] \/ kx[x] \in {"release", "flushing"})
+
+\* the byte stream never holds more than its capacity
+NetBounded == \A x \in Sides : Len(wire[x]) <= NetCap
 
 \* K4 (liveness): every writer finishes and every packet is delivered, given that the
 \* applications keep reading and every goroutine keeps being scheduled
@@ -294,4 +320,14 @@ AllDone == \A x \in Sides : /\ \A w \in Writers : sent[x][w] = NPkts /\ wpc[x][w
 K4 == <>[]AllDone
 \* no writer stays blocked forever
 NoStuckWriter == \A x \in Sides, w \in Writers : (wpc[x][w] = "blocked") ~> (wpc[x][w] = "idle")
+\* every writePacket call returns (blocked on the queue, on mu, or in conn.Write on a full pipe)
+EveryWriteReturns == \A x \in Sides, w \in Writers : (wpc[x][w] = "calling") ~> (wpc[x][w] = "idle")
+\* every queued packet is eventually flushed and delivered to the peer's application
+QueueDrains == \A x \in Sides : (pending[x] # <<>>) ~> (pending[x] = <<>>)
+\* no global deadlock: some goroutine (writer, kexLoop, readLoop, reading application) can take a
+\* step in every state but those where all is done (an invariant in the safety configs; the
+\* liveness configs check K4, which implies it)
+NoDeadlock == AllDone \/ ENABLED FairNext
+\* the dead-lock of the ReleaseAfterFlush variant, spelled out (for the documentation config)
+BothFlushesBlocked == \A x \in Sides : kx[x] = "flushing" /\ pending[x] # <<>> /\ ~Room(x) /\ hand[x] = "taken"
 =============================================================================
